@@ -1,5 +1,6 @@
 import OH.Props.C11
 import OH.Props.TablesC11
+import OH.Props.ArithC01Time
 #print axioms OH.Props.C11.default_events
 #print axioms OH.Props.C11.default_ctx_events
 #print axioms OH.Props.C11.default_events_ordered
@@ -20,3 +21,12 @@ import OH.Props.TablesC11
 #print axioms OH.Props.C11.sun_wrapped
 #print axioms OH.Props.TablesC11.C11_default_events
 #print axioms OH.Props.TablesC11.C11_default_events_complete
+#print axioms OH.Props.ArithC01Time.midnight00
+#print axioms OH.Props.ArithC01Time.midnight24
+#print axioms OH.Props.ArithC01Time.midnight48
+#print axioms OH.Props.ArithC01Time.emb_lt_iff
+#print axioms OH.Props.ArithC01Time.fromMins_wf
+#print axioms OH.Props.ArithC01Time.variableTime_asNaive
+#print axioms OH.Props.ArithC01Time.variableTime_asNaive_eq_model
+#print axioms OH.Props.ArithC01Time.timeSpan_asNaive
+#print axioms OH.Props.ArithC01Time.timeSpan_asNaive_eq_model
